@@ -35,6 +35,12 @@ TIMEOUT = {"quick": 1500, "thorough": 10800}
 _REC = None
 
 
+def same_within(got, exp, tol):
+    """elementwise: equal (incl. equal infinities), both NaN, or within tol - a NaN/inf on one side only is a difference"""
+    with np.errstate(invalid="ignore"):
+        return (got == exp) | (np.isnan(got) & np.isnan(exp)) | (np.abs(got - exp) <= tol)
+
+
 def rec_classes():
     global _REC
     if _REC is None:
@@ -109,7 +115,7 @@ def diff_penalty(m, order=1):
     return D.T @ D
 
 
-def build_model(rng, collide=False, alt=False):
+def build_model(rng, collide=False, alt=False, int_init=False):
     import jax.numpy as jnp
     import liesel.model as lsl
     import tensorflow_probability.substrates.jax.bijectors as tfb
@@ -128,7 +134,9 @@ def build_model(rng, collide=False, alt=False):
     a_var = lsl.Var(jnp.asarray(1.0, jnp.float32), name="a")
     b_var = lsl.Var(jnp.asarray(0.5, jnp.float32), name="b")
     rank_var = lsl.Var(int(np.linalg.matrix_rank(K)), name="rank")
-    tau2 = lsl.param(jnp.asarray(1.0, jnp.float32), lsl.Dist(tfd.InverseGamma, concentration=a_var, scale=b_var), name="tau2")
+    # int_init: the user wrote `lsl.param(1, ...)` (an integer literal as starting value)
+    tau2 = lsl.param(1 if int_init else jnp.asarray(1.0, jnp.float32),
+                     lsl.Dist(tfd.InverseGamma, concentration=a_var, scale=b_var), name="tau2")
     b2 = lsl.param(jnp.zeros(q, jnp.float32),
                    lsl.Dist(MultivariateNormalDegenerate.from_penalty, loc=0.0, var=tau2, pen=K_var, rank=rank_var), name="b2")
     grp = lsl.Group("smooth", beta=b2, tau2=tau2, rank=rank_var, K=K_var, a=a_var, b=b_var)
@@ -302,8 +310,8 @@ def case_liesel(case, res):
         tol = 2e-5 + 2e-5 * np.abs(exp)
         if nm in ("_model_log_prob", "_model_log_lik", "_model_log_prior") or nm.endswith("_log_prob"):
             tol = 2e-4 + 3e-5 * np.abs(exp)
-        if got.shape != exp.shape or np.any(np.abs(got - exp) > tol):
-            idx = np.argwhere(np.abs(got - exp) > tol)[0] if got.shape == exp.shape else [0]
+        if got.shape != exp.shape or not np.all(same_within(got, exp, tol)):
+            idx = np.argwhere(~same_within(got, exp, tol))[0] if got.shape == exp.shape else [0]
             i = int(idx[0])
             res.violation("derived-stale" if nm != "_model_log_prob" else "log-prob-stale",
                           f"stored value of node {nm} at chain {i // T} iteration {i % T} is {np.ravel(got[i])[:4].tolist()} but recomputing "
@@ -319,6 +327,83 @@ def case_liesel(case, res):
     if ok:
         res.nontriv(("c09", tuple(w["order"]), str(cfg)))
     res.ev("iterations_recomputed", C * T)
+    res.sample = w
+
+
+def case_eager(case, res):
+    """The kernels of a sequence applied one after the other *eagerly* (no jit, as in debugging or a hand-written loop)
+    on a Liesel model whose tau2 was started from an integer literal, with rejected interface calls in between: after
+    every kernel only its own block has changed and the carried state equals the recomputation from the stored
+    parameter values."""
+    import copy as _copy
+
+    import jax
+    import jax.numpy as jnp
+    import liesel.goose as gs
+    from liesel.goose.epoch import EpochConfig, EpochType
+
+    rng = rng_for(case["seed"], "c09-eager", case["idx"])
+    model, grp = build_model(rng, False, int_init=bool(case["idx"] % 2))
+    cfg = dict(case["cfg"], beta="rw" if case["cfg"]["beta"] in ("nuts", "hmc") else case["cfg"]["beta"],
+               sigma2="rw" if case["cfg"]["sigma2"] == "nuts" else case["cfg"]["sigma2"])
+    named = make_kernels(rng, model, grp, cfg)
+    iface = gs.LieselInterface(model)
+    for _blk, k in named:
+        k.set_model(iface)
+    strong = ["beta", "sigma2_transformed", "tau2", "b2", "k"]
+    tracked = [nm for nm, ns in model.state.items() if ns.value is not None]
+    M2 = _copy.deepcopy(model)
+    M2.auto_update = False
+    epoch = EpochConfig(EpochType.POSTERIOR, 10, 1, None).to_state(1, 1)
+    state = model.state
+    key = jax.random.PRNGKey(case["engine_seed"])
+    kstates = {}
+    w = {"order": [blk for blk, _ in named], "kinds": cfg, "eager": True, "tau2_started_from_integer_literal": bool(case["idx"] % 2)}
+    n_moved = 0
+    for it in range(case["n_iter"]):
+        for j, (blk, k) in enumerate(named):
+            key, k1, k2 = jax.random.split(key, 3)
+            if (it * len(named) + j) % 4 == 1:
+                # a rejected interface call (unknown key after a valid one) between two transitions
+                try:
+                    iface.update_state({"b2": jnp.full((4,), 100.0, jnp.float32), "no_such_parameter": 1.0}, state)
+                    res.violation("bad-key-accepted", "update_state with an unknown key did not raise", w)
+                except KeyError:
+                    res.ev("rejected_interface_calls_between_transitions")
+            if j not in kstates:
+                kstates[j] = k.init_state(k1, state)
+            before = {p: np.asarray(v) for p, v in iface.extract_position(strong, state).items()}
+            out = k.transition(k2, kstates[j], state, epoch)
+            kstates[j] = out.kernel_state
+            state = out.model_state
+            after = {p: np.asarray(v) for p, v in iface.extract_position(strong, state).items()}
+            res.mon("eager_only_own_keys_change")
+            for p in strong:
+                if p != blk and (before[p].shape != after[p].shape or not np.array_equal(before[p], after[p])):
+                    res.violation("foreign-key-changed", f"eager transition of the kernel for block {blk} changed parameter {p}: "
+                                  f"{np.ravel(before[p])[:3].tolist()} -> {np.ravel(after[p])[:3].tolist()}", w)
+            if not np.array_equal(before[blk], after[blk]):
+                n_moved += 1
+            for p in strong:
+                M2.vars[p].value = jnp.asarray(after[p])
+            M2.update()
+            res.mon("eager_state_matches_recomputation")
+            for nm in tracked:
+                got = np.asarray(state[nm].value, np.float64)
+                exp = np.asarray(M2.nodes[nm].value, np.float64)
+                tol = 2e-4 + 3e-5 * np.abs(exp)
+                if got.shape != exp.shape or not np.all(same_within(got, exp, tol)):
+                    res.violation("derived-stale" if nm != "_model_log_prob" else "log-prob-stale",
+                                  f"after the eager transition of the kernel for {blk} (iteration {it}): carried value of node {nm} is "
+                                  f"{np.ravel(got)[:4].tolist()} but recomputing from the carried parameter values gives "
+                                  f"{np.ravel(exp)[:4].tolist()}", w)
+                    break
+            if len(res.violations) >= 2:
+                break
+        if len(res.violations) >= 2:
+            break
+    if n_moved >= 3:
+        res.nontriv(("c09-eager", tuple(w["order"]), case["idx"]))
     res.sample = w
 
 
@@ -415,6 +500,13 @@ def gen_cases(tier, seed):
         cases.append({"kind": "liesel", "idx": i, "seed": seed, "cfg": cfg, "spec": spec, "engine_seed": int(rng.integers(2 ** 30)),
                       "collide": bool(i % 4 == 3), "reused_kernels": bool(i % 3 == 1), "cost": 10 + 10 * heavy})
     for i in range(6 if q else 60):
+        rng = rng_for(seed, "c09-gene", i)
+        cfg = {"beta": str(rng.choice(["iwls", "rw"])), "sigma2": str(rng.choice(["rw", "mh"])),
+               "b2": str(rng.choice(["iwls", "rw", "gibbs_user"])), "step_beta": float(rng.choice([0.8, 1.5])),
+               "step_s": float(rng.choice([0.8, 2.0])), "step_b2": float(rng.choice([1.0, 2.0]))}
+        cases.append({"kind": "eager", "idx": 20000 + i, "seed": seed, "cfg": cfg, "n_iter": 3, "engine_seed": int(rng.integers(2 ** 30)),
+                      "cost": 12})
+    for i in range(6 if q else 60):
         rng = rng_for(seed, "c09-gend", i)
         cases.append({"kind": "dict", "idx": 10000 + i, "seed": seed, "spec": [[1, 5, 1], [3, 5, 1], [4, 10, 1]],
                       "engine_seed": int(rng.integers(2 ** 30)), "direct_sequence": bool(i % 2), "cost": 6})
@@ -425,7 +517,7 @@ def run_case(case):
     res = CaseResult(case)
     res.evals = 1
     try:
-        (case_liesel if case["kind"] == "liesel" else case_dict)(case, res)
+        {"liesel": case_liesel, "eager": case_eager, "dict": case_dict}[case["kind"]](case, res)
     except Exception as exc:  # noqa: BLE001
         mech, text = exc_mech(exc)
         if mech is None:
